@@ -1,0 +1,9 @@
+//go:build verif
+
+// Contracts for casblob.go, checked by /verif (govc). Comment-only file.
+
+package casblob
+
+//@ func WriteAndClose(zstd zstdimpl.ZstdImpl, r io.Reader, f *os.File, t CompressionType, hash string, size int64) (int64, error)
+//@   trusted
+//@   ensures result1 == nil ==> (0 <= result0 && result0 <= B62())
